@@ -317,7 +317,7 @@ CHECKS = {
                  "seen an intervening commit (classes: after dml / ddl / growth / shrink / vacuum). Distinct = fingerprint of the spec."),
         "assumptions": ["system libsqlite3 (3.40.1) is writer and reference"],
         "min_nontrivial": {"quick": 150, "thorough": 3000},
-        "required_classes": ["read-while-sibling-handle-in-transaction", "read-after:dml", "read-after:ddl", "read-after:growth", "read-after:vacuum", "read-after:pagesize", "file-grew", "more-than-100-pages"],
+        "required_classes": ["read-while-sibling-handle-in-transaction", "read-while-another-connection-has-an-open-write-transaction", "read-after:dml", "read-after:ddl", "read-after:growth", "read-after:vacuum", "read-after:pagesize", "file-grew", "more-than-100-pages"],
         "timeout": {"quick": 400, "thorough": 2400},
         "jobs": [
             job("history", "c08", ["TestC08History"], 130, 2500, 4, 12),
@@ -336,7 +336,7 @@ CHECKS = {
                  "held PENDING or EXCLUSIVE, or RESERVED with a journal on disk. Distinct = fingerprint of the spec."),
         "assumptions": ["system libsqlite3 (3.40.1) unix VFS with POSIX advisory locks is the writer"],
         "min_nontrivial": {"quick": 150, "thorough": 3000},
-        "required_classes": ["state:UNLOCKED", "state:SHARED", "state:RESERVED", "state:RESERVED+journal", "state:PENDING", "state:EXCLUSIVE", "state:EXCLUSIVE+journal+spilled", "sync-off=true", "sync-off=false", "state:PENDING+commit-blocked-by-our-own-handle", "state:shared-range-write-locked-without-pending"],
+        "required_classes": ["read-meets-unseen-commit-and-open-transaction", "writer-changes-schema", "state:UNLOCKED", "state:SHARED", "state:RESERVED", "state:RESERVED+journal", "state:PENDING", "state:EXCLUSIVE", "state:EXCLUSIVE+journal+spilled", "sync-off=true", "sync-off=false", "state:PENDING+commit-blocked-by-our-own-handle", "state:shared-range-write-locked-without-pending"],
         "timeout": {"quick": 400, "thorough": 2400},
         "jobs": [
             job("states", "c07", ["TestC07LockStates"], 250, 5000, 3, 10),
@@ -354,7 +354,7 @@ CHECKS = {
                  "plus database/sql result sets read for k rows then closed / cancelled / drained. Non-trivial = at least one side action ran. Distinct = fingerprint of the spec."),
         "assumptions": ["Linux POSIX record locks; system libsqlite3 (3.40.1) is the writer"],
         "min_nontrivial": {"quick": 150, "thorough": 3000},
-        "required_classes": ["exit:normal", "exit:stop", "exit:error-column", "exit:fault", "exit:panic", "side:commit-attempt", "side:peer-hold", "side:other-file", "side:same-process-read", "side:nested-call-inside-callback", "side:same-process-close-then-read", "side:open-while-writer-pending:opened", "op:IndexedSelect-wr", "driver:cancel", "writer:open-txn", "writer:hot-journal", "writer:raw-exclusive", "concurrent:procs="],
+        "required_classes": ["exit:normal", "exit:stop", "exit:error-column", "exit:fault", "exit:panic", "side:commit-attempt", "side:peer-hold", "side:other-file", "side:same-process-read", "side:nested-call-inside-callback", "side:same-process-close-then-read", "side:open-while-writer-pending:opened", "side:driver-failed-query-inside-read", "op:IndexedSelect-wr", "driver:cancel", "writer:open-txn", "writer:hot-journal", "writer:raw-exclusive", "concurrent:procs="],
         "timeout": {"quick": 400, "thorough": 2400},
         "jobs": [
             job("held", "c06", ["TestC06Held"], 220, 4000, 3, 10),
